@@ -51,7 +51,7 @@ theorem resolveSymbol_reg (hr : Reg s) (t : String) : Reg (s.resolveSymbol t).1 
     · exact pmulUnit_reg hr _ _
     · split <;> exact hr
 theorem appendBase_reg (hr : Reg s) (d : Dim) : Reg (s.appendBase d) :=
-  hr.mono rfl rfl (appendBase_ext s d).len
+  hr.mono rfl rfl rfl (appendBase_ext s d).len
 theorem defineUnit_reg (hr : Reg s) (d : Dim) (name sym : String) : Reg (s.defineUnit d name sym).1 := by
   unfold defineUnit
   split
